@@ -33,9 +33,10 @@ def gen_graph(rnd, n, outcome):
         if names[b] not in tg[names[a]]['children']:
             tg[names[a]]['children'].append(names[b])
     failing = None
-    if outcome == 'fail' and n > 2:
+    if outcome in ('fail', 'sig') and n > 2:
         failing = names[rnd.randrange(1, n)]
-        tg[failing]['rc'] = 3
+        # 'sig': the script is ended by a signal (a crashing tool, the OOM killer, kill): redo records "done -<signal>"
+        tg[failing]['rc'] = 3 if outcome == 'fail' else -rnd.choice([9, 15, 11])
     for nm in names:
         t = tg[nm]
         seq = [0]
@@ -147,7 +148,9 @@ def script(nm, t):
             # the two builds write different lines (else a reader that slips from the first log into the second goes unnoticed)
             out.append('read i < rb.inst\necho "rb#0 build$i start" >&2\necho "rb#1 build$i %s" >&2\nsleep %s\n'
                        'echo "rb#2 build$i late-1" >&2\necho "rb#3 build$i late-2" >&2\necho "rb#4 build$i late-3" >&2' % (seg[1], seg[2]))
-    if t['rc']:
+    if t['rc'] < 0:
+        out.append('echo "E $1 $$ %d" >&9\nkill -%d $$\nsleep 5' % (t['rc'], -t['rc']))
+    elif t['rc']:
         out.append('echo "E $1 $$ %d" >&9\nexit %d' % (t['rc'], t['rc']))
     else:
         out.append('echo "%s" > "$3"\necho "E $1 $$ 0" >&9' % nm)
@@ -305,6 +308,12 @@ def case(item):
             r, _ = pj.run(['redo'] + (['-j%d' % j] if j > 1 else []) + [top], extra=extra, timeout=120, verif_log=False)
         else:
             r, _ = pj.run(['redo-ifchange', top], extra=extra, slots=(j if j > 1 else None), timeout=120, verif_log=False)
+        pt = common.panic_text(r.err) or ''
+        if r.status == 'exit' and re.search(r'panicked at [^\s]*(bin/redo/log\.rs|logs\.rs)', pt):
+            # the viewer (or the log record parser it uses) died: everything it had still to show is lost
+            res = dict(verdict='violated', nontrivial=True, shape=common.shash(list(item)), sample=dict(kind='build', item=list(item)), obs=obs, sets=sets,
+                       violations=[dict(key='live:viewer-panicked', what='the log viewer of %s panicked: %s' % (cmd, pt[:300]))], replay=dict(kind='build', item=list(item)))
+            return res
         if r.status != 'exit' or r.panicked():
             return dict(verdict='inconclusive', why='build did not end normally (C09 matter): %s' % (common.panic_text(r.err) or r.status), sample=dict(item=list(item)))
         # which scripts ran, and how they ended (from the trace the scripts write themselves)
@@ -564,7 +573,7 @@ def dispatch(item):
 RULE = ('generated graphs of 3-25 writer scripts (nested and shared children) at -j1..8 via redo and redo-ifchange, raw log mode: every script '
         'writes id-ed lines (<target>#<seq> payload) to stderr in segments interleaved with its redo-ifchange calls: plain lines (0-200 bytes, '
         'unicode, tabs), a line written in 2-5 pieces 20-120 ms apart, lines of 5 000-100 000 bytes, look-alikes of structured records that do '
-        'not parse, empty lines, bursts of 50-200 lines, an unterminated last line, a child that the root force-rebuilds twice in a row and whose last lines come late; one script may fail. Monitor: the live stderr of the '
+        'not parse, empty lines, bursts of 50-200 lines, an unterminated last line, a child that the root force-rebuilds twice in a row and whose last lines come late; one script may fail or be ended by a signal (SIGKILL/SIGTERM/SIGSEGV, recorded as a negative status). Monitor: the live stderr of the '
         'top-level command and the output of `redo-log -r --no-pretty` (from the project top and from a sub-directory) are attributed to '
         'targets by the do/resumed/done records (a record may be glued to an unterminated line); for every script that ran to its end the '
         'attributed lines must equal the written ones exactly (after trailing-whitespace stripping), no id-ed line may appear under another '
@@ -584,7 +593,7 @@ def main(tier):
     items = []
     for i in range(70 if quick else 1500):
         n = rnd.choice([3, 5, 8, 12, 18, 25])
-        items.append(('build', n, rnd.choice([1, 2, 3, 4, 8]), 'fail' if rnd.random() < 0.15 else 'ok', rnd.choice(['redo', 'redo-ifchange']), rnd.randrange(10 ** 9)))
+        items.append(('build', n, rnd.choice([1, 2, 3, 4, 8]), rnd.choices(['fail', 'sig', 'ok'], [3, 2, 15])[0], rnd.choice(['redo', 'redo-ifchange']), rnd.randrange(10 ** 9)))
     for j in (1, 3):
         for depth in (1, 2):
             for rep in range(1 if quick else 5):
